@@ -115,6 +115,36 @@ def work_skip(src):
                 continue
             if changed or open(p, encoding="utf-8").read() != variant or os.stat(p).st_mtime_ns != st:
                 fails.append({"cls": "skip:format_file", "what": "format_file rewrote / reported a change for a skip_file text", "input": variant})
+    # the file entry points on BYTES: every mixture of line endings, a byte order mark, a final line without line break
+    base = "# pyrefact: skip_file\n" + src
+    lines = base.split("\n")
+    byte_variants = {
+        "crlf": "\r\n".join(lines), "cr": "\r".join(lines), "mixed-crlf-then-lf": "\r\n".join(lines[:2]) + "\n" + "\n".join(lines[2:]),
+        "mixed-lf-then-crlf": "\n".join(lines[:2]) + "\r\n" + "\r\n".join(lines[2:]), "one-stray-cr": base.replace("\n", "\r\n", 1).replace("\n", "\r", 1) if base.count("\n") > 2 else base,
+        "bom": "\ufeff" + base, "no-final-newline": base.rstrip("\n"), "crlf-no-final-newline": "\r\n".join(lines).rstrip("\r\n"),
+    }
+    for label, text in byte_variants.items():
+        data = text.encode("utf-8")
+        with tempfile.TemporaryDirectory() as d:
+            p = os.path.join(d, "m.py")
+            with open(p, "wb") as f:
+                f.write(data)
+            for entry in ("format_file", "format_files", "main"):
+                try:
+                    if entry == "format_file":
+                        changed = pmain.format_file(p)
+                    elif entry == "format_files":
+                        changed = pmain.format_files([p], n_cores=1) if False else None      # pools cannot be started from a pool worker: covered by `main` in a subprocess
+                    else:
+                        q = subprocess.run([sys.executable, "-c", "import sys; sys.path.insert(0, %r); import importlib; m = importlib.import_module('pyrefact.main'); sys.exit(m.main(sys.argv[1:]))" % os.environ.get("PYREFACT_REPO", "/repo"),
+                                            p, "--n_cores", "1"], capture_output=True, text=True, timeout=300)
+                        changed = None
+                except BaseException as ex:  # noqa: BLE001
+                    changed = None        # raising is C04's subject; the bytes on disk are what C20 is about
+                now = open(p, "rb").read()
+                if now != data or changed:
+                    fails.append({"cls": f"skip:bytes:{entry}", "what": f"{entry} on a skip_file file with {label} line ends / marks: bytes changed or a change was reported ({data[:60]!r} -> {now[:60]!r})", "input": text})
+                    break
     # stdin mode (one subprocess per variant): echoed byte-for-byte
     repo = os.environ.get("PYREFACT_REPO", "/repo")
     for variant in ("# pyrefact: skip_file\n" + src, src.rstrip("\n") + "\n# pyrefact: skip_file"):
